@@ -71,7 +71,13 @@ let hist fuel (kbx : Sexp.t) (ops : Sexp.t list) : string * Sexp.t * Sexp.t =
                 (match g with
                  | GCall t ->
                    Hashtbl.replace slots (int_of_string q) (t, nd);
-                   specs := L [A "slot"; A q; spec_of_query fuel kb t w1.next_id] :: !specs
+                   let lazy_part =
+                     (* the continuation-style reference search of Spec/SpecLazy.v (cut-free programs): the
+                        substitution sets themselves, with the engine's own variable ids *)
+                     match answers kb fuel fuel t w1 with
+                     | Ok (l, wl) -> L (A "lazy" :: (List.map sexp_of_ss l @ [A (atom_of_str (wl.out))]))
+                     | _ -> A "lazy-outside" in
+                   specs := L [A "slot"; A q; spec_of_query fuel kb t w1.next_id; lazy_part] :: !specs
                  | _ -> bad "build: not a call");
                 L [A "built"; sexp_of_goal g; varid ()]
               | L [A "ask"; A q] ->
